@@ -30,6 +30,7 @@ class Joiner:
         self.descends = descends      # B was computed from a copy of A (loop body from the loop invariant)
         self.roots = roots            # restrict the memory join to these roots (None = all of A)
         self.shared = set()
+        self.jroots = 0
         self.why = []
         self.thresholds = thresholds or []
         self.out = A.copy()
@@ -60,37 +61,74 @@ class Joiner:
         return s < self.mark or s in self.shared
 
     def jlin(self, la, lb, w, sg, nonneg=False):
+        """join of two linear values.  The part both sides share (same coefficient on symbols that mean
+        the same in both states) is factored out; only the differing remainder is generalised to a fresh
+        symbol.  In keep mode a join symbol of this key inside `la` stands for the varying part."""
         if la == lb:
             for s in la.syms():
                 self.shared.add(s)
             return la
+        if self.keep:
+            for s_, a_ in la.t:
+                if a_ in (1, -1) and self.ip.tab.origin(s_) == ("join", self.key):
+                    C = la - Lin.sym(s_, a_)
+                    if all(self.common(x) for x in C.syms()):
+                        pl = (a_ == 1 and not C.t and C.c == 0)
+                        r = self.jsym(s_, (lb - C).scale(a_), w, sg, nonneg and pl, plain=pl)
+                        for x in C.syms():
+                            self.shared.add(x)
+                        return C + r.scale(a_)
+        # factor the common part
+        db_ = dict(lb.t)
+        ct = []
+        for s_, a_ in la.t:
+            if db_.get(s_) == a_ and self.common(s_):
+                ct.append((s_, a_))
+        C = Lin(0, tuple(ct))
+        for s_, _ in ct:
+            self.shared.add(s_)
+        da, dbb = la - C, lb - C
+        plain = not ct
+        r = self.gen(da, dbb, w, sg, nonneg and plain, None, plain)
+        return C + r
+
+    def jsym(self, old, rb, w, sg, nonneg, plain):
+        """keep-mode: `old` (a join symbol of this key) against the arrival's remainder rb"""
         A, B = self.A, self.B
-        old = self.is_join_sym(la) if self.keep else None
-        bb = self.bounds_of(B, lb)
-        if old is not None and old not in self.conflict:
+        if old not in self.conflict:
             ol, oh = A.bounds(old)
-            if (ol is None or B.prove_ge0(lb - ol)) and (oh is None or B.prove_ge0(Lin.const(oh) - lb)):
+            tl0, th0 = ty_range(w, sg) if plain else (None, None)
+            lo_ok = ol is None or (tl0 is not None and ol <= tl0) or B.prove_ge0(rb - ol)
+            hi_ok = oh is None or (th0 is not None and oh >= th0) or B.prove_ge0(Lin.const(oh) - rb)
+            if lo_ok and hi_ok:
                 prev = self.sigma.get(old)
-                if prev is None or prev == lb:
-                    self.sigma[old] = lb
-                    return la
+                if prev is None or prev == rb:
+                    self.sigma[old] = rb
+                    return Lin.sym(old)
                 self.conflict.add(old)
+        return self.gen(Lin.sym(old), rb, w, sg, nonneg, old, plain)
+
+    def gen(self, la, lb, w, sg, nonneg, old, plain):
+        """fresh symbol covering la (in A) and lb (in B)"""
+        A, B = self.A, self.B
         ab = self.bounds_of(A, la)
+        bb = self.bounds_of(B, lb)
         lo, hi = _hull(ab, bb)
-        tlo, thi = ty_range(w, sg)
+        tlo, thi = ty_range(w, sg) if plain else (None, None)
         if self.widen and old is not None:
             ol, oh = A.bounds(old)
             if lo is None or (ol is not None and lo < ol):
-                cand = [t for t in self.thresholds if lo is not None and tlo <= t <= lo]
+                cand = [t for t in self.thresholds if lo is not None and (tlo is None or tlo <= t) and t <= lo]
                 lo = max(cand) if cand else tlo
             if hi is None or (oh is not None and hi > oh):
-                cand = [t for t in self.thresholds if hi is not None and hi <= t <= thi]
+                cand = [t for t in self.thresholds if hi is not None and hi <= t and (thi is None or t <= thi)]
                 hi = min(cand) if cand else thi
-        if lo is None or lo < tlo:
-            lo = tlo
-        if hi is None or hi > thi:
-            hi = thi
-        if nonneg and lo < 0:
+        if plain:
+            if lo is None or lo < tlo:
+                lo = tlo
+            if hi is None or hi > thi:
+                hi = thi
+        if nonneg and (lo is None or lo < 0):
             lo = 0
         s = self.ip.tab.fresh(lo, hi, ("join", self.key))
         self.news.append((s, la, lb, old))
@@ -166,9 +204,26 @@ class Joiner:
                 self.changed = True
             return VArrS(a.ety, n, allv)
         if ta is VSlice:
+            # slice lengths are non-negative by construction (language invariant)
+            try:
+                self.A.assume_ge0(a.n)
+                self.B.assume_ge0(b.n)
+            except Exception:
+                pass
+            self.jroots += 1
+            jr = ("J", self.key, self.jroots)
+            if a.root == jr:
+                # already generalised at this leaf position: the anonymous byte object absorbs any arrival
+                return VSlice(jr, (), Lin.const(0), self.jlin(a.n, b.n, 64, False, True), a.mut)
             if a.root != b.root or a.steps != b.steps:
+                # slices into different byte objects: generalise to a slice of a summarised anonymous byte
+                # object (deterministic root per join key and slice-leaf ordinal, so fixpoints stabilise)
+                base = self.A.mem.get(a.root)
+                ety = base.ety if isinstance(base, VArrS) else {"k": "int", "w": 8, "sg": False, "ptr": False, "s": "u8"}
+                self.out.mem[jr] = VArrS(ety, Lin.const(0))
                 self.changed = True
-                return MIX
+                self.why.append("slice roots differ %r vs %r" % (a.root, b.root))
+                return VSlice(jr, (), Lin.const(0), self.jlin(a.n, b.n, 64, False, True), a.mut)
             return VSlice(a.root, a.steps, self.jlin(a.start, b.start, 64, False, True),
                           self.jlin(a.n, b.n, 64, False, True), a.mut)
         if ta is VOpq:
@@ -189,6 +244,26 @@ class Joiner:
         return True
 
     # ---------------------------------------------------------------- whole states
+    def nonneg_slices(self, vals):
+        """slice lengths in the joined values are non-negative (language invariant): record it"""
+        from .summary import value_syms_roots
+        work = list(vals)
+        seen = 0
+        while work and seen < 400:
+            v = work.pop()
+            seen += 1
+            if isinstance(v, VSlice):
+                if v.n.t and len(v.n.t) > 1:
+                    try:
+                        self.out.assume_ge0(v.n)
+                    except Exception:
+                        pass
+            elif isinstance(v, (VAgg, VArr, VClos)):
+                work.extend(v.elems)
+            elif isinstance(v, VEnum):
+                for p in v.pay.values():
+                    work.extend(p)
+
     def run(self, extra_vals=()):
         A, B, out = self.A, self.B, self.out
         # memory
@@ -197,6 +272,8 @@ class Joiner:
                 continue
             if root in B.mem:
                 out.mem[root] = self.jval(va, B.mem[root])
+            elif root[0] == "J":
+                pass
             else:
                 out.mem.pop(root, None)
         outs = [self.jval(x, y) for x, y in extra_vals]
@@ -237,6 +314,22 @@ class Joiner:
                 ok = all(self.common(s) for s in f.syms()) and B.prove_ge0(f)
             if ok:
                 facts.append(f)
+                continue
+            # weaken the constant before giving the relation up:  e - c >= 0  ~>  e - 1 >= 0  ~>  e >= 0
+            weak = None
+            if self.keep and f.t and f.c < 0:
+                for c2 in (1, 0):
+                    if -f.c > c2:
+                        f2 = f - f.c - c2
+                        g2 = f2.subst(self.sigma) if self.sigma else f2
+                        if (self.descends or all((s in self.sigma or self.common(s)) for s in f2.syms())) and B.prove_ge0(g2):
+                            weak = f2
+                            break
+            if weak is not None:
+                facts.append(weak)
+                self.changed = True
+                self.why.append("fact weakened %r -> %r" % (f, weak))
+                continue
             else:
                 if self.keep:
                     self.why.append("fact dropped %r (as %r; sigma=%r; Bfacts=%r)" % (f, f.subst(self.sigma) if self.sigma else f, self.sigma, B.facts[:8]))
@@ -249,7 +342,12 @@ class Joiner:
         out.neqs = [d for d in A.neqs if d in B.neqs]
         out.ghost = {k: v for k, v in A.ghost.items() if B.ghost.get(k) == v}
         # relational facts for the new symbols
+        self.post_sub = None
         self.relate()
+        if self.post_sub:
+            from .summary import subst_value
+            outs = [subst_value(v, self.post_sub, {}) if v is not None else None for v in outs]
+        self.nonneg_slices([v for v in outs if v is not None])
         return outs
 
     def relate(self):
@@ -282,32 +380,74 @@ class Joiner:
                 # facts about the symbol that is being replaced carry over if they hold for the new arrival
                 for f in A.facts:
                     if old in f.syms():
-                        g = f.subst({old: lb})
-                        if self.sigma:
-                            g = g.subst(self.sigma)
-                        if B.prove_ge0(g):
-                            nf = f.subst({old: Lin.sym(s)})
-                            if nf not in out.facts:
-                                out.facts.append(nf)
-        # pairwise relations between new symbols (sum / difference constant or bounded)
-        n = self.news[:6]
+                        cands = [f]
+                        if f.c < 0:
+                            cands += [f - f.c - c2 for c2 in (1, 0) if -f.c > c2]
+                        for f1 in cands:
+                            g = f1.subst({old: lb})
+                            if self.sigma:
+                                g = g.subst(self.sigma)
+                            if not (self.descends or all((x in self.sigma or self.common(x) or x == old) for x in f1.syms())):
+                                continue
+                            if B.prove_ge0(g):
+                                nf = f1.subst({old: Lin.sym(s)})
+                                if nf not in out.facts:
+                                    out.facts.append(nf)
+                                break
+        # pairwise relations between new symbols: if the sum (difference) of two generalised values is the
+        # same expression over common symbols on both sides, the second symbol is *defined* by the first
+        n = self.news[:8]
+        sub = {}
         for i in range(len(n)):
             for j in range(i + 1, len(n)):
                 (s1, a1, b1, _), (s2, a2, b2, _) = n[i], n[j]
+                if s1 in sub or s2 in sub:
+                    continue
                 for sign in (1, -1):
                     ea = a1 + a2.scale(sign)
                     eb = b1 + b2.scale(sign)
+                    if ea == eb and all(self.common(x) for x in ea.syms()):
+                        # s1 + sign*s2 = ea   =>   s2 = sign*(ea - s1)
+                        sub[s2] = (ea - Lin.sym(s1)).scale(sign)
+                        break
                     lo, hi = _hull(A.interval(ea), B.interval(eb))
                     e = Lin.sym(s1) + Lin.sym(s2, sign)
-                    if lo is not None and lo == hi:
-                        out.facts.append(e - lo)
-                        out.facts.append(Lin.const(hi) - e)
-                    elif sign == -1:
+                    if sign == -1:
                         if lo is not None and abs(lo) <= 64:
                             out.facts.append(e - lo)
+                        else:
+                            for c in (1, 0):
+                                if A.prove_ge0(ea - c) and B.prove_ge0(eb - c):
+                                    out.facts.append(e - c)
+                                    break
                         if hi is not None and abs(hi) <= 64:
                             out.facts.append(Lin.const(hi) - e)
+                        else:
+                            for c in (-1, 0):
+                                if A.prove_ge0(Lin.const(c) - ea) and B.prove_ge0(Lin.const(c) - eb):
+                                    out.facts.append(Lin.const(c) - e)
+                                    break
+        if sub:
+            self.apply_sub(sub)
         self.gc()
+
+    def apply_sub(self, sub):
+        from .summary import subst_value
+        out = self.out
+        for s2, e in sub.items():
+            lo, hi = out.bounds(s2)
+            try:
+                if lo is not None:
+                    out.assume_ge0(e - lo)
+                if hi is not None:
+                    out.assume_ge0(Lin.const(hi) - e)
+            except Exception:
+                pass
+        for r, v in list(out.mem.items()):
+            if v is not None:
+                out.mem[r] = subst_value(v, sub, {})
+        out.facts = [f.subst(sub) for f in out.facts]
+        self.post_sub = sub
 
     def gc(self):
         """drop facts that only talk about symbols no value refers to any more (always sound)"""
@@ -336,7 +476,7 @@ def join_into(ip, inv, arr, mark, key, widen=False, descends=True, roots=None, t
     j = Joiner(ip, inv, arr, mark, key, keep=True, widen=widen, descends=descends, roots=roots, thresholds=thresholds)
     j.run()
     if DEBUG and j.changed:
-        print("JOIN", key, j.why[:6])
+        print("JOIN", key, j.why[:6], "FACTS", j.out.facts[:10])
     return j.out, j.changed
 
 
